@@ -174,6 +174,23 @@ def compare(a, b, tol=1e-7, path="ans"):
         raise Mismatch("%s: %r != %r" % (path, a, b))
 
 
+def plain(o, _depth=0):
+    """answers as plain picklable data: library objects replaced by what a user can observe of them (see _objproj)"""
+    import scipy.sparse as sp
+
+    if _depth > 10 or o is None or isinstance(o, (bool, int, float, str, bytes, complex, np.generic, np.ndarray)) or sp.issparse(o):
+        return o
+    if isinstance(o, dict):
+        return {k: plain(v, _depth + 1) for k, v in o.items()}
+    if isinstance(o, (list, tuple)):
+        return [plain(v, _depth + 1) for v in o]
+    if isinstance(o, (set, frozenset)):
+        return sorted(repr(plain(v, _depth + 1)) for v in o)
+    if hasattr(o, "__dict__"):
+        return {"__type__": type(o).__name__, "proj": plain(_objproj(o), _depth + 1)}
+    return repr(o)
+
+
 def _objproj(o):
     """projection of library objects to plain data (only what a user can observe)"""
     n = type(o).__name__
